@@ -20,6 +20,16 @@ package checks
 // (model state, administrative files, last writer per worktree) class). The
 // model itself is replayed against real git (`git worktree add`, commit,
 // checkout --detach, reset --hard, worktree remove) at a smaller depth.
+//
+// Shared-reference operations (added by the hole analysis, notes/C33-holes.md):
+// PackRefs and DeleteTag of the shared tag t0 run in main and in a linked
+// worktree (references are shared: what one worktree packs or deletes must be
+// packed / gone for git and for every other worktree, and nothing else may
+// disappear), Add at an explicit commit (WithCommit). The sequences are run
+// under several configurations of the directory layout and of the entry point:
+// scratch root with white space in its path, bare main repository, linked
+// worktrees opened through git.PlainOpen(<worktree directory>) (which parses the
+// `.git` file and `commondir` itself) instead of xworktree.Open.
 
 import (
 	"crypto/sha256"
@@ -43,7 +53,7 @@ import (
 )
 
 func init() {
-	fw.Register(&fw.Check{ID: "C33", Level: "model_checking", Run: runC33, QuickBudget: 100, ThoroughBudget: 1400})
+	fw.Register(&fw.Check{ID: "C33", Level: "model_checking", Run: runC33, QuickBudget: 150, ThoroughBudget: 1400})
 }
 
 type i33Op struct {
@@ -64,6 +74,57 @@ var i33Alphabet = func() []i33Op {
 	return a
 }()
 
+// i33AlphabetFull = the base alphabet + operations on the shared references
+// (run in main and in ONE linked worktree: w1 and w2 differ by name only) and
+// Add at an explicit commit.
+var i33AlphabetFull = func() []i33Op {
+	a := append([]i33Op{}, i33Alphabet...)
+	a = append(a, i33Op{"addc", "w1"})
+	for _, w := range []string{"main", "w1"} {
+		a = append(a, i33Op{"packrefs", w}, i33Op{"rmtag", w})
+	}
+	return a
+}()
+
+// i33Cfg is one configuration of the directory layout / entry point.
+type i33Cfg struct {
+	Name  string
+	Space bool // the scratch root (so the main repository and every worktree) has white space in its path
+	Bare  bool // the main repository is bare
+	Plain bool // linked worktrees are opened with git.PlainOpen(<dir>) instead of xworktree.Open
+}
+
+// Directory names of the "space" configurations: white space (single, double,
+// tab) and other legal but unusual bytes (#, quotes, non-ASCII, a leading dash)
+// inside the path of the main repository and of every worktree. Written to and
+// parsed back from `<worktree>/.git` ("gitdir: <path>") and
+// `.git/worktrees/<name>/gitdir`.
+const (
+	i33OddDir1 = "my projects"
+	i33OddDir2 = "-r 1  #'\"\té x"
+)
+
+// i33Lay locates the directories of one replay.
+type i33Lay struct {
+	root string
+	bare bool
+}
+
+func (l i33Lay) mainDir() string { return filepath.Join(l.root, "main") }
+func (l i33Lay) mainGit() string {
+	if l.bare {
+		return l.mainDir()
+	}
+	return filepath.Join(l.mainDir(), ".git")
+}
+func (l i33Lay) dir(w string) string { return filepath.Join(l.root, w) }
+func (l i33Lay) gitDir(w string) string {
+	if w == "main" {
+		return l.mainGit()
+	}
+	return filepath.Join(l.mainGit(), "worktrees", w)
+}
+
 // ---------------------------------------------------------------------------
 // model
 
@@ -78,9 +139,10 @@ type i33WT struct {
 
 type i33Model struct {
 	WT    map[string]*i33WT
-	Refs  map[string]string // refs/heads/*
+	Refs  map[string]string // refs/heads/* and refs/tags/*
 	Trees map[string]map[string]string
 	C0    string
+	Bare  bool
 }
 
 func (m *i33Model) headCommit(w string) string {
@@ -132,14 +194,17 @@ type i33Expect struct {
 func (m *i33Model) pre(op i33Op) i33Expect {
 	t := m.WT[op.W]
 	e := i33Expect{Enabled: true, Target: op.W}
+	if m.Bare && op.W == "main" && (op.Kind == "commit" || op.Kind == "checkout" || op.Kind == "reset") {
+		return i33Expect{} // a bare main repository has no worktree to operate in
+	}
 	switch op.Kind {
-	case "add", "addd":
+	case "add", "addd", "addc":
 		switch {
 		case t.Exists:
 			e.MustErr = true
 		case t.Ever:
 			// re-adding over a directory left behind by Remove: outcome not modelled
-		case op.Kind == "add" && m.Refs["refs/heads/"+op.W] != "":
+		case op.Kind != "addd" && m.Refs["refs/heads/"+op.W] != "":
 			e.MustErr = true // branch of that name exists
 		default:
 			e.MustOK = true
@@ -159,6 +224,16 @@ func (m *i33Model) pre(op i33Op) i33Expect {
 		} else if m.usable(op.W) {
 			e.MustOK = true
 		}
+	case "rmtag":
+		if !t.Ever {
+			e.Enabled = false
+		} else if m.usable(op.W) {
+			if m.Refs["refs/tags/t0"] == "" {
+				e.MustErr = true
+			} else {
+				e.MustOK = true
+			}
+		}
 	default:
 		if !t.Ever {
 			e.Enabled = false
@@ -174,7 +249,7 @@ func (m *i33Model) pre(op i33Op) i33Expect {
 func (m *i33Model) post(op i33Op, e i33Expect, ok bool, newCommit, content string) {
 	t := m.WT[op.W]
 	switch op.Kind {
-	case "add", "addd":
+	case "add", "addd", "addc":
 		if e.MustErr {
 			if t.Exists {
 				return // refused, nothing may change
@@ -191,8 +266,11 @@ func (m *i33Model) post(op i33Op, e i33Expect, ok bool, newCommit, content strin
 			return
 		}
 		base := m.headCommit("main")
+		if op.Kind == "addc" {
+			base = m.C0
+		}
 		t.Exists, t.Ever, t.Broken = true, true, false
-		if op.Kind == "add" {
+		if op.Kind != "addd" {
 			m.Refs["refs/heads/"+op.W] = base
 			t.Head = "ref: refs/heads/" + op.W
 		} else {
@@ -211,6 +289,25 @@ func (m *i33Model) post(op i33Op, e i33Expect, ok bool, newCommit, content strin
 			t.LastOp = "remove-unmodelled"
 		}
 	case "open":
+	case "packrefs", "rmtag":
+		// shared references only: no worktree's own state is touched (LastOp
+		// stays: neither writes an index). A refused rmtag changes nothing.
+		if e.MustErr {
+			return
+		}
+		if !e.MustOK {
+			t.Broken = true
+			t.LastOp = op.Kind + "-unmodelled"
+			return
+		}
+		if !ok {
+			t.Broken = true
+			t.LastOp = op.Kind + "-failed"
+			return
+		}
+		if op.Kind == "rmtag" {
+			delete(m.Refs, "refs/tags/t0")
+		}
 	case "commit", "checkout", "reset":
 		if !e.MustOK {
 			t.Broken = true // operation in a removed / broken worktree: own state unmodelled
@@ -259,16 +356,9 @@ type i33Snap struct {
 	Dir   bool
 }
 
-func i33GitDir(root, w string) string {
-	if w == "main" {
-		return filepath.Join(root, "main", ".git")
-	}
-	return filepath.Join(root, "main", ".git", "worktrees", w)
-}
-
-func i33Snapshot(root, w string) i33Snap {
+func i33Snapshot(lay i33Lay, w string) i33Snap {
 	s := i33Snap{Files: map[string]string{}}
-	gd := i33GitDir(root, w)
+	gd := lay.gitDir(w)
 	if fi, err := os.Stat(gd); err == nil && fi.IsDir() {
 		s.Admin = true
 	}
@@ -279,7 +369,10 @@ func i33Snapshot(root, w string) i33Snap {
 		h := sha256.Sum256(b)
 		s.Index = fmt.Sprintf("%x", h[:8])
 	}
-	dir := filepath.Join(root, w)
+	dir := lay.dir(w)
+	if lay.bare && w == "main" {
+		return s // the directory is the repository itself: no working files
+	}
 	if fi, err := os.Stat(dir); err == nil && fi.IsDir() {
 		s.Dir = true
 		filepath.Walk(dir, func(p string, fi os.FileInfo, err error) error {
@@ -329,26 +422,28 @@ func i33SnapDiff(a, b i33Snap) string {
 var i33When = time.Unix(1700000000, 0).UTC()
 
 type i33Result struct {
-	err    error
-	commit string
-	head   string // for open: resolved HEAD
+	err     error
+	commit  string
+	parents string // for commit: the parents recorded in the new commit, space separated
+	head    string // for open: resolved HEAD
 }
 
 // i33Apply executes one operation with go-git on the directories under root.
-func i33Apply(root string, op i33Op, c0 string, content string) (res i33Result) {
+func i33Apply(lay i33Lay, cfg i33Cfg, op i33Op, c0 string, content string) (res i33Result) {
 	defer func() {
 		if p := recover(); p != nil {
 			res.err = fmt.Errorf("PANIC: %v", p)
 		}
 	}()
-	mainGit := filepath.Join(root, "main", ".git")
+	root := lay.root
+	mainGit := lay.mainGit()
 	openMgr := func() (*xworktree.Worktree, *filesystem.Storage, error) {
 		st := filesystem.NewStorage(osfs.New(mainGit, osfs.WithBoundOS()), cache.NewObjectLRUDefault())
 		m, err := xworktree.New(st)
 		return m, st, err
 	}
 	switch op.Kind {
-	case "add", "addd":
+	case "add", "addd", "addc":
 		m, st, err := openMgr()
 		if err != nil {
 			return i33Result{err: err}
@@ -357,6 +452,9 @@ func i33Apply(root string, op i33Op, c0 string, content string) (res i33Result) 
 		var opts []xworktree.Option
 		if op.Kind == "addd" {
 			opts = append(opts, xworktree.WithDetachedHead())
+		}
+		if op.Kind == "addc" {
+			opts = append(opts, xworktree.WithCommit(plumbing.NewHash(c0)))
 		}
 		return i33Result{err: m.Add(osfs.New(filepath.Join(root, op.W), osfs.WithBoundOS()), op.W, opts...)}
 	case "remove":
@@ -368,8 +466,10 @@ func i33Apply(root string, op i33Op, c0 string, content string) (res i33Result) 
 		return i33Result{err: m.Remove(op.W)}
 	}
 	var repo *git.Repository
-	if op.W == "main" {
-		r, err := git.PlainOpen(filepath.Join(root, "main"))
+	if op.W == "main" || cfg.Plain {
+		// main, or the second entry point for a linked worktree: PlainOpen reads
+		// the `.git` file and `commondir` of the worktree directory itself
+		r, err := git.PlainOpen(lay.dir(op.W))
 		if err != nil {
 			return i33Result{err: err}
 		}
@@ -394,6 +494,12 @@ func i33Apply(root string, op i33Op, c0 string, content string) (res i33Result) 
 		}
 		return i33Result{head: h.Hash().String()}
 	}
+	switch op.Kind {
+	case "packrefs":
+		return i33Result{err: repo.Storer.PackRefs()}
+	case "rmtag":
+		return i33Result{err: repo.DeleteTag("t0")}
+	}
 	wt, err := repo.Worktree()
 	if err != nil {
 		return i33Result{err: err}
@@ -411,7 +517,17 @@ func i33Apply(root string, op i33Op, c0 string, content string) (res i33Result) 
 		if err != nil {
 			return i33Result{err: err}
 		}
-		return i33Result{commit: h.String()}
+		res := i33Result{commit: h.String()}
+		if co, err := repo.CommitObject(h); err == nil {
+			var ps []string
+			for _, p := range co.ParentHashes {
+				ps = append(ps, p.String())
+			}
+			res.parents = strings.Join(ps, " ")
+		} else {
+			res.parents = "unreadable: " + err.Error()
+		}
+		return res
 	case "checkout":
 		return i33Result{err: wt.Checkout(&git.CheckoutOptions{Hash: plumbing.NewHash(c0)})}
 	case "reset":
@@ -421,10 +537,10 @@ func i33Apply(root string, op i33Op, c0 string, content string) (res i33Result) 
 }
 
 // i33ApplyGit executes the same operation with real git (conformance of the model).
-func i33ApplyGit(home, root string, op i33Op, c0, content string) (res i33Result) {
+func i33ApplyGit(home string, lay i33Lay, op i33Op, c0, content string) (res i33Result) {
 	g := func(dir string, args ...string) iRes { return iGit(home, dir, i36GitConf, args...) }
-	mainDir := filepath.Join(root, "main")
-	wdir := filepath.Join(root, op.W)
+	mainDir := lay.mainDir()
+	wdir := lay.dir(op.W)
 	errOf := func(r iRes) error {
 		if r.Code != 0 {
 			return fmt.Errorf("exit %d: %s", r.Code, strings.TrimSpace(r.Err))
@@ -436,13 +552,19 @@ func i33ApplyGit(home, root string, op i33Op, c0, content string) (res i33Result
 		return i33Result{err: errOf(g(mainDir, "worktree", "add", "-q", wdir))}
 	case "addd":
 		return i33Result{err: errOf(g(mainDir, "worktree", "add", "-q", "--detach", wdir))}
+	case "addc":
+		return i33Result{err: errOf(g(mainDir, "worktree", "add", "-q", "-b", op.W, wdir, c0))}
+	case "packrefs":
+		return i33Result{err: errOf(g(wdir, "pack-refs", "--all"))}
+	case "rmtag":
+		return i33Result{err: errOf(g(wdir, "tag", "-d", "t0"))}
 	case "remove":
 		// go-git's Remove deletes the administrative directory only: same with git
 		// is `rm -rf .git/worktrees/<name>`; use the porcelain when it applies
-		if _, err := os.Stat(i33GitDir(root, op.W)); err != nil {
+		if _, err := os.Stat(lay.gitDir(op.W)); err != nil {
 			return i33Result{err: fmt.Errorf("not a worktree")}
 		}
-		return i33Result{err: os.RemoveAll(i33GitDir(root, op.W))}
+		return i33Result{err: os.RemoveAll(lay.gitDir(op.W))}
 	case "open":
 		r := g(wdir, "rev-parse", "HEAD")
 		return i33Result{err: errOf(r), head: strings.TrimSpace(r.Out)}
@@ -457,7 +579,8 @@ func i33ApplyGit(home, root string, op i33Op, c0, content string) (res i33Result
 			return i33Result{err: errOf(r)}
 		}
 		r := g(wdir, "rev-parse", "HEAD")
-		return i33Result{err: errOf(r), commit: strings.TrimSpace(r.Out)}
+		pr := g(wdir, "log", "-1", "--format=%P", "HEAD")
+		return i33Result{err: errOf(r), commit: strings.TrimSpace(r.Out), parents: strings.TrimSpace(pr.Out)}
 	case "checkout":
 		return i33Result{err: errOf(g(wdir, "checkout", "-q", "--detach", c0))}
 	case "reset":
@@ -469,7 +592,8 @@ func i33ApplyGit(home, root string, op i33Op, c0, content string) (res i33Result
 type i33Run struct {
 	c     *fw.Ctx
 	home  string
-	tmpl  string
+	tmpl  string // template with a non-bare main repository
+	tmplB string // template with a bare main repository
 	c0    string
 	c1    string
 	mu    sync.Mutex
@@ -486,11 +610,14 @@ func (r *i33Run) fail(order int, key, what string, rep map[string]any) {
 	r.mu.Unlock()
 }
 
-func (r *i33Run) newModel() *i33Model {
-	m := &i33Model{WT: map[string]*i33WT{}, Refs: map[string]string{"refs/heads/main": r.c1}, Trees: map[string]map[string]string{}, C0: r.c0}
+func (r *i33Run) newModel(bare bool) *i33Model {
+	m := &i33Model{WT: map[string]*i33WT{}, Refs: map[string]string{"refs/heads/main": r.c1, "refs/heads/other": r.c0, "refs/tags/t0": r.c0}, Trees: map[string]map[string]string{}, C0: r.c0, Bare: bare}
 	m.Trees[r.c0] = map[string]string{"f0": "0\n"}
 	m.Trees[r.c1] = map[string]string{"f0": "0\n", "f1": "1\n"}
 	m.WT["main"] = &i33WT{Exists: true, Ever: true, Head: "ref: refs/heads/main", Files: i33CopyFiles(m.Trees[r.c1]), LastOp: "init"}
+	if bare {
+		m.WT["main"].Files = map[string]string{}
+	}
 	m.WT["w1"] = &i33WT{Files: map[string]string{}}
 	m.WT["w2"] = &i33WT{Files: map[string]string{}}
 	return m
@@ -505,11 +632,11 @@ func i33SeqString(seq []i33Op) string {
 }
 
 // compare the model with the real directories; returns "" when equal.
-func (r *i33Run) compare(root string, m *i33Model) string {
+func (r *i33Run) compare(lay i33Lay, m *i33Model) string {
 	var bad []string
 	for _, w := range []string{"main", "w1", "w2"} {
 		t := m.WT[w]
-		s := i33Snapshot(root, w)
+		s := i33Snapshot(lay, w)
 		if t.Broken {
 			continue
 		}
@@ -536,13 +663,13 @@ func (r *i33Run) compare(root string, m *i33Model) string {
 			}
 		}
 	}
-	st, err := iReadState("", filepath.Join(root, "main", ".git"))
+	st, err := iReadState("", lay.mainGit())
 	if err != nil {
 		bad = append(bad, "shared refs unreadable: "+err.Error())
 	} else {
 		names := map[string]bool{}
 		for k := range st.Refs {
-			if strings.HasPrefix(k, "refs/heads/") {
+			if strings.HasPrefix(k, "refs/heads/") || strings.HasPrefix(k, "refs/tags/") {
 				names[k] = true
 			}
 		}
@@ -561,13 +688,21 @@ func (r *i33Run) compare(root string, m *i33Model) string {
 			}
 		}
 	}
+	// the shared reference store is the common directory's: a packed-refs file
+	// inside a linked worktree's administrative directory is read by nobody
+	for _, w := range []string{"w1", "w2"} {
+		if _, err := os.Lstat(filepath.Join(lay.gitDir(w), "packed-refs")); err == nil {
+			bad = append(bad, fmt.Sprintf("packed-refs written into the administrative directory of %s", w))
+		}
+	}
 	return strings.Join(bad, "; ")
 }
 
 // gitOracle: `git worktree list --porcelain` and `git status` agree with the model.
-func (r *i33Run) gitOracle(root string, m *i33Model) string {
+func (r *i33Run) gitOracle(lay i33Lay, m *i33Model) string {
 	var bad []string
-	res := iGit(r.home, filepath.Join(root, "main"), i36GitConf, "worktree", "list", "--porcelain")
+	root := lay.root
+	res := iGit(r.home, lay.mainDir(), i36GitConf, "worktree", "list", "--porcelain")
 	if res.Code != 0 {
 		return "git worktree list failed: " + strings.TrimSpace(res.Err)
 	}
@@ -588,9 +723,9 @@ func (r *i33Run) gitOracle(root string, m *i33Model) string {
 			e := listed[cur]
 			e.branch = "ref: " + f[1]
 			listed[cur] = e
-		case "detached":
+		case "detached", "bare":
 			e := listed[cur]
-			e.branch = "detached"
+			e.branch = f[0]
 			listed[cur] = e
 		}
 	}
@@ -605,6 +740,12 @@ func (r *i33Run) gitOracle(root string, m *i33Model) string {
 			continue
 		}
 		if !t.Exists {
+			continue
+		}
+		if lay.bare && w == "main" {
+			if e.branch != "bare" {
+				bad = append(bad, fmt.Sprintf("git worktree list: the bare main repository is listed as %q %s", e.branch, i36Short(e.head)))
+			}
 			continue
 		}
 		wantBranch := "detached"
@@ -636,9 +777,10 @@ func (r *i33Run) gitOracle(root string, m *i33Model) string {
 
 // adminKey hashes the administrative files of the linked worktrees with the
 // scratch root replaced, so equal layouts at different roots compare equal.
-func i33AdminKey(root string) string {
+func i33AdminKey(lay i33Lay) string {
 	h := sha256.New()
-	base := filepath.Join(root, "main", ".git", "worktrees")
+	root := lay.root
+	base := filepath.Join(lay.mainGit(), "worktrees")
 	filepath.Walk(base, func(p string, fi os.FileInfo, err error) error {
 		if err != nil || fi.IsDir() {
 			return nil
@@ -655,6 +797,21 @@ func i33AdminKey(root string) string {
 		b, _ := os.ReadFile(filepath.Join(root, w, ".git"))
 		fmt.Fprintf(h, "%s/.git\x00%s\x00", w, strings.ReplaceAll(string(b), root, "<root>"))
 	}
+	// which shared references are loose / packed (git reads both stores)
+	filepath.Walk(filepath.Join(lay.mainGit(), "refs"), func(p string, fi os.FileInfo, err error) error {
+		if err == nil && !fi.IsDir() {
+			rel, _ := filepath.Rel(lay.mainGit(), p)
+			fmt.Fprintf(h, "loose %s\x00", rel)
+		}
+		return nil
+	})
+	if b, err := os.ReadFile(filepath.Join(lay.mainGit(), "packed-refs")); err == nil {
+		for _, l := range strings.Split(string(b), "\n") {
+			if f := strings.Fields(l); len(f) == 2 && l[0] != '#' {
+				fmt.Fprintf(h, "packed %s\x00", f[1])
+			}
+		}
+	}
 	return fmt.Sprintf("%x", h.Sum(nil)[:8])
 }
 
@@ -663,17 +820,56 @@ func runC33(c *fw.Ctx) {
 	confDepth := c.Pick(2, 2)
 	c.Bound("depth", depth)
 	c.Bound("conformance_depth", confDepth)
-	var alpha []string
-	for _, o := range i33Alphabet {
-		alpha = append(alpha, o.String())
+	names := func(al []i33Op) []string {
+		var o []string
+		for _, x := range al {
+			o = append(o, x.String())
+		}
+		return o
 	}
-	c.Bound("alphabet", alpha)
-	c.SetRule("every sequence over the 17-operation alphabet up to depth (sequences that operate in a worktree directory that never existed are not well-formed and skipped); replayed from scratch on real directories; after every step isolation of the untouched worktrees (HEAD file, index bytes, files) and equality with the per-worktree model; at the end git worktree list / git status per distinct (model state, administrative files, last writer) class; non-trivial = a step changed a worktree; a class is the canonical model state reached")
-	c.Assume("git 2.39.5 worktree list/status are the reference; go-git's Remove deletes only the administrative directory (documented), so the directory stays; re-adding over such a directory and operating in a removed worktree are executed but their own outcome is not modelled (isolation of the other worktrees is still required)")
+	c.Bound("alphabet", names(i33Alphabet))
+	c.Bound("alphabet_full", names(i33AlphabetFull))
+
+	// passes: (configuration, alphabet, depth). The plain configuration carries
+	// the deep enumeration; every other side of a layout / entry-point variant
+	// gets the whole full alphabet at one level less.
+	type pass struct {
+		cfg   i33Cfg
+		alpha []i33Op
+		depth int
+		conf  int // depth of the conformance replay with real git (0: none)
+	}
+	plain := i33Cfg{Name: "plain"}
+	others := []i33Cfg{
+		{Name: "space", Space: true},
+		{Name: "space+plainopen", Space: true, Plain: true},
+		{Name: "space+bare", Space: true, Bare: true},
+		{Name: "bare+plainopen", Bare: true, Plain: true},
+	}
+	var passes []pass
+	for _, k := range others {
+		cd := 0
+		if k.Name == "space+bare" {
+			cd = confDepth // real git in a bare main repository below a path with white space
+		}
+		passes = append(passes, pass{k, i33AlphabetFull, depth - 1, cd})
+	}
+	passes = append(passes, pass{plain, i33AlphabetFull, 3, confDepth})
+	if c.Thorough() {
+		passes = append(passes, pass{plain, i33Alphabet, depth, 0})
+	}
+	var pdesc []string
+	for _, p := range passes {
+		pdesc = append(pdesc, fmt.Sprintf("%s: %d operations, depth %d, git conformance depth %d", p.cfg.Name, len(p.alpha), p.depth, p.conf))
+	}
+	c.Bound("passes", pdesc)
+	c.Bound("path_of_space_configurations", "<scratch>/"+i33OddDir1+"/"+i33OddDir2+"/{main,w1,w2}")
+	c.SetRule("every sequence over the alphabet up to the pass's depth (sequences that operate in a worktree directory that never existed, or in the worktree of a bare main repository, are not well-formed and skipped), in each configuration (plain; scratch path with white space; bare main repository; linked worktrees opened through git.PlainOpen instead of xworktree.Open); replayed from scratch on real directories; after every step isolation of the untouched worktrees (HEAD file, index bytes, files), equality with the per-worktree model incl. the shared refs/heads and refs/tags (loose or packed) read from the common directory, parents of new commits; at the end git worktree list / git status per distinct (configuration, model state, administrative files, loose/packed layout, last writer) class; non-trivial = a step changed a worktree or the shared references; a class is the configuration + canonical model state reached")
+	c.Assume("git 2.39.5 worktree list/status are the reference; go-git's Remove deletes only the administrative directory (documented), so the directory stays; re-adding over such a directory and operating in a removed worktree are executed but their own outcome is not modelled (isolation of the other worktrees is still required); w1 and w2 differ by name only, so the shared-reference operations are enumerated in main and w1")
 
 	r := &i33Run{c: c, home: filepath.Join(c.Scratch(), "home"), seen: map[string]bool{}, mkeys: map[string]bool{}, info: map[string]int{}}
 	os.MkdirAll(r.home, 0o755)
-	// template: main with c0 <- c1
+	// template: main with c0 <- c1, branch other and tag t0 at c0
 	troot := c.TempDir("c33tmpl")
 	g := fw.NewGit("", r.home).C(i36GitConf...)
 	mainDir := filepath.Join(troot, "main")
@@ -683,6 +879,8 @@ func runC33(c *fw.Ctx) {
 	gm.MustRun("add", "f0")
 	gm.MustRun("commit", "-q", "-m", "c0")
 	r.c0 = gm.MustRun("rev-parse", "HEAD").S()
+	gm.MustRun("branch", "other")
+	gm.MustRun("tag", "t0")
 	c.Must(os.WriteFile(filepath.Join(mainDir, "f1"), []byte("1\n"), 0o644), "write f1")
 	gm.MustRun("add", "f1")
 	gm.MustRun("commit", "-q", "-m", "c1")
@@ -690,22 +888,31 @@ func runC33(c *fw.Ctx) {
 	gm.MustRun("config", "user.name", "V")
 	gm.MustRun("config", "user.email", "v@example.com")
 	r.tmpl = troot
+	// bare twin: same objects, the references loose as in the non-bare template
+	broot := c.TempDir("c33tmplb")
+	bdir := filepath.Join(broot, "main")
+	g.MustRun("init", "-q", "--bare", "-b", "main", bdir)
+	gb := g.In(bdir)
+	gb.MustRun("fetch", "-q", mainDir, "refs/heads/*:refs/heads/*", "refs/tags/*:refs/tags/*")
+	gb.MustRun("config", "user.name", "V")
+	gb.MustRun("config", "user.email", "v@example.com")
+	r.tmplB = broot
 
-	seqs := fw.Seqs(len(i33Alphabet), depth)
-	c.Bound("sequences", len(seqs))
 	only := os.Getenv("C33_ONLY")
+	onlyCfg := os.Getenv("C33_CFG")
 
-	run := func(si int, withGit bool) {
+	run := func(ps pass, seqIdx []int, si int, withGit bool) {
+		cfg := ps.cfg
 		var seq []i33Op
-		for _, x := range seqs[si] {
-			seq = append(seq, i33Alphabet[x])
+		for _, x := range seqIdx {
+			seq = append(seq, ps.alpha[x])
 		}
 		if only != "" && !strings.HasPrefix(i33SeqString(seq), only) {
 			return
 		}
 		// well-formedness on the model alone (cheap): skip without touching the disk
 		{
-			m := r.newModel()
+			m := r.newModel(cfg.Bare)
 			for i, op := range seq {
 				e := m.pre(op)
 				if !e.Enabled {
@@ -715,10 +922,19 @@ func runC33(c *fw.Ctx) {
 				m.post(op, e, e.MustOK, fmt.Sprintf("shadow%d", i), "")
 			}
 		}
-		root := c.TempDir("c33")
-		defer os.RemoveAll(root)
-		c.Must(iCopyDir(r.tmpl, root), "copy template")
-		m := r.newModel()
+		top := c.TempDir("c33")
+		defer os.RemoveAll(top)
+		lay := i33Lay{root: filepath.Join(top, "r"), bare: cfg.Bare}
+		if cfg.Space {
+			lay.root = filepath.Join(top, i33OddDir1, i33OddDir2)
+		}
+		tmpl := r.tmpl
+		if cfg.Bare {
+			tmpl = r.tmplB
+		}
+		c.Must(os.MkdirAll(lay.root, 0o755), "make root")
+		c.Must(iCopyDir(tmpl, lay.root), "copy template")
+		m := r.newModel(cfg.Bare)
 		for i, op := range seq {
 			e := m.pre(op)
 			if !e.Enabled {
@@ -726,20 +942,41 @@ func runC33(c *fw.Ctx) {
 			}
 			before := map[string]i33Snap{}
 			for _, w := range []string{"main", "w1", "w2"} {
-				before[w] = i33Snapshot(root, w)
+				before[w] = i33Snapshot(lay, w)
+			}
+			prevHead := ""
+			if op.Kind == "commit" && m.usable(op.W) {
+				prevHead = m.headCommit(op.W)
+			}
+			// class label of the step for finding keys: the shared-reference
+			// operations are told apart by where they run and by the store the tag is in
+			opLabel := op.Kind
+			if op.Kind == "packrefs" || op.Kind == "rmtag" {
+				site := "a linked worktree"
+				if op.W == "main" {
+					site = "main"
+				}
+				opLabel += " in " + site
+				if op.Kind == "rmtag" {
+					if _, err := os.Lstat(filepath.Join(lay.mainGit(), "refs", "tags", "t0")); err == nil {
+						opLabel += " of a loose tag"
+					} else {
+						opLabel += " of a packed tag"
+					}
+				}
 			}
 			content := fmt.Sprintf("%s step %d\n", op.W, i)
 			var res i33Result
 			if withGit {
-				res = i33ApplyGit(r.home, root, op, r.c0, content)
+				res = i33ApplyGit(r.home, lay, op, r.c0, content)
 			} else {
-				res = i33Apply(root, op, r.c0, content)
+				res = i33Apply(lay, cfg, op, r.c0, content)
 				c.Transitions(1)
 				c.Eval()
 			}
 			ok := res.err == nil
-			prefix := i33SeqString(seq[:i+1])
-			rep := map[string]any{"sequence": prefix, "step": op.String(), "error": fmt.Sprint(res.err)}
+			prefix := cfg.Name + ": " + i33SeqString(seq[:i+1])
+			rep := map[string]any{"configuration": cfg, "sequence": i33SeqString(seq[:i+1]), "step": op.String(), "error": fmt.Sprint(res.err)}
 			if res.err != nil && strings.HasPrefix(res.err.Error(), "PANIC") {
 				r.fail(si, "panic "+op.Kind, res.err.Error()+" :: "+prefix, rep)
 				return
@@ -749,15 +986,25 @@ func runC33(c *fw.Ctx) {
 				if w == e.Target {
 					continue
 				}
-				if d := i33SnapDiff(before[w], i33Snapshot(root, w)); d != "" {
+				if d := i33SnapDiff(before[w], i33Snapshot(lay, w)); d != "" {
 					if withGit {
 						fw.Abort("real git violates isolation?! %s: %s changed: %s", prefix, w, d)
 					}
 					tk := "usable"
-					if !m.usable(e.Target) && op.Kind != "add" && op.Kind != "addd" {
+					if !m.usable(e.Target) && op.Kind != "add" && op.Kind != "addd" && op.Kind != "addc" {
 						tk = "removed-or-broken"
 					}
 					r.fail(si, fmt.Sprintf("isolation: %s in a %s worktree changes %s", op.Kind, tk, map[bool]string{true: "main", false: "another linked worktree"}[w == "main"]), fmt.Sprintf("%s changed by %s: %s :: %s", w, op, d, prefix), rep)
+					return
+				}
+			}
+			// packing / deleting shared references touches no worktree's own state at all
+			if op.Kind == "packrefs" || op.Kind == "rmtag" {
+				if d := i33SnapDiff(before[e.Target], i33Snapshot(lay, e.Target)); d != "" {
+					if withGit {
+						fw.Abort("real git: %s changes the worktree it runs in: %s (%s)", op, d, prefix)
+					}
+					r.fail(si, "isolation: "+op.Kind+" changes the HEAD/index/files of its own worktree", fmt.Sprintf("%s changed by %s: %s :: %s", e.Target, op, d, prefix), rep)
 					return
 				}
 			}
@@ -765,12 +1012,18 @@ func runC33(c *fw.Ctx) {
 				if withGit {
 					fw.Abort("model expects %s to be refused, real git accepts it: %s", op, prefix)
 				}
-				r.fail(si, "accepted: "+op.Kind+" that must be refused", fmt.Sprintf("%s succeeded although %s :: %s", op, "the worktree / its branch already exists or the worktree does not exist", prefix), rep)
+				r.fail(si, "accepted: "+op.Kind+" that must be refused", fmt.Sprintf("%s succeeded although %s :: %s", op, "the worktree / its branch already exists, the worktree does not exist or the tag is gone", prefix), rep)
 				return
 			}
 			if e.MustOK && !ok {
 				if withGit {
 					fw.Abort("model expects %s to succeed, real git: %v (%s)", op, res.err, prefix)
+				}
+				if op.Kind == "open" {
+					// references and objects remain shared: HEAD of a usable worktree
+					// has to stay resolvable whatever the others did to the shared store
+					r.fail(si, "open: HEAD of a usable worktree cannot be resolved", fmt.Sprintf("%s: %s :: %s", op, i36ErrClass(res.err.Error()), prefix), rep)
+					return
 				}
 				r.mu.Lock()
 				r.info["failed "+op.Kind+": "+i36ErrClass(res.err.Error())]++
@@ -783,36 +1036,43 @@ func runC33(c *fw.Ctx) {
 				r.fail(si, "open: wrong HEAD", fmt.Sprintf("Open(%s).Head() = %s, model %s :: %s", op.W, i36Short(res.head), i36Short(m.headCommit(op.W)), prefix), rep)
 				return
 			}
+			if op.Kind == "commit" && e.MustOK && ok && res.parents != prevHead {
+				if withGit {
+					fw.Abort("model parent of the commit made by %s is %s, real git %q (%s)", op, prevHead, res.parents, prefix)
+				}
+				r.fail(si, "commit: wrong parents", fmt.Sprintf("%s recorded the parents %q, the worktree's HEAD was %s :: %s", op, res.parents, i36Short(prevHead), prefix), rep)
+				return
+			}
 			m.post(op, e, ok, res.commit, content)
-			if withGit && op.Kind == "add" && e.MustErr {
+			if withGit && (op.Kind == "add" || op.Kind == "addc") && e.MustErr {
 				// real git creates the branch before it notices that the path exists
 				// (go-git refuses first); follow git here, the refusal itself is what is compared
-				if st, err := iReadState("", filepath.Join(root, "main", ".git")); err == nil {
+				if st, err := iReadState("", lay.mainGit()); err == nil {
 					if v, ok := st.Refs["refs/heads/"+op.W]; ok {
 						m.Refs["refs/heads/"+op.W] = v
 					}
 				}
 			}
-			if d := r.compare(root, m); d != "" {
+			if d := r.compare(lay, m); d != "" {
 				if withGit {
 					fw.Abort("model disagrees with real git after %s: %s", prefix, d)
 				}
-				r.fail(si, "model: "+op.Kind+" "+i33DiffClass(d), d+" :: "+prefix, rep)
+				r.fail(si, "model: "+opLabel+" "+i33DiffClass(d), d+" :: "+prefix, rep)
 				return
 			}
 		}
 		r.mu.Lock()
-		mk := m.key()
+		mk := cfg.Name + " " + m.key()
 		newState := !r.mkeys[mk]
 		r.mkeys[mk] = true
-		ok := mk + "|" + i33AdminKey(root)
+		ok := mk + "|" + i33AdminKey(lay)
 		doGit := !r.seen[ok]
 		r.seen[ok] = true
 		r.mu.Unlock()
 		if withGit {
 			// the oracle's reading of `git worktree list` / `git status` is validated as well
-			if d := r.gitOracle(root, m); d != "" {
-				fw.Abort("git oracle disagrees with the model on a history made by real git (%s): %s", i33SeqString(seq), d)
+			if d := r.gitOracle(lay, m); d != "" {
+				fw.Abort("git oracle disagrees with the model on a history made by real git (%s: %s): %s", cfg.Name, i33SeqString(seq), d)
 			}
 			c.TracesValidated(1)
 			return
@@ -822,38 +1082,50 @@ func runC33(c *fw.Ctx) {
 			c.Class(mk)
 		}
 		if doGit {
-			if d := r.gitOracle(root, m); d != "" {
-				r.fail(si, "git: "+i33DiffClass(d), d+" :: "+i33SeqString(seq), map[string]any{"sequence": i33SeqString(seq)})
+			if d := r.gitOracle(lay, m); d != "" {
+				r.fail(si, "git: "+i33DiffClass(d), d+" :: "+cfg.Name+": "+i33SeqString(seq), map[string]any{"configuration": cfg, "sequence": i33SeqString(seq)})
 			}
 			r.mu.Lock()
 			r.info["git oracle evaluations"]++
 			r.mu.Unlock()
 		}
 		if si%499 == 0 {
-			c.Sample(map[string]any{"sequence": i33SeqString(seq), "model": mk})
+			c.Sample(map[string]any{"configuration": cfg.Name, "sequence": i33SeqString(seq), "model": mk})
 		}
 	}
 
-	// 1. conformance of the model against real git at a smaller depth
-	nconf := fw.CountStrings(len(i33Alphabet), confDepth)
-	c.ParDo(nconf, 0, func(i int) { run(i, true) })
-	// 2. go-git
-	r.mu.Lock()
-	r.seen, r.mkeys = map[string]bool{}, map[string]bool{}
-	r.mu.Unlock()
-	c.ParDo(len(seqs), 0, func(i int) {
-		if c.Expired() {
-			r.mu.Lock()
-			first := !r.cut
-			r.cut = true
-			r.mu.Unlock()
-			if first {
-				c.Incomplete("internal deadline reached; remaining sequences skipped")
-			}
-			return
+	total := 0
+	for pi, ps := range passes {
+		if onlyCfg != "" && !strings.Contains(","+onlyCfg+",", ","+ps.cfg.Name+",") {
+			continue
 		}
-		run(i, false)
-	})
+		ps := ps
+		// 1. conformance of the model against real git at a smaller depth
+		if ps.conf > 0 {
+			cseqs := fw.Seqs(len(ps.alpha), ps.conf)
+			c.ParDo(len(cseqs), 0, func(i int) { run(ps, cseqs[i], i, true) })
+			r.mu.Lock()
+			r.seen, r.mkeys = map[string]bool{}, map[string]bool{}
+			r.mu.Unlock()
+		}
+		// 2. go-git
+		seqs := fw.Seqs(len(ps.alpha), ps.depth)
+		total += len(seqs)
+		c.ParDo(len(seqs), 0, func(i int) {
+			if c.Expired() {
+				r.mu.Lock()
+				first := !r.cut
+				r.cut = true
+				r.mu.Unlock()
+				if first {
+					c.Incomplete("internal deadline reached; remaining sequences skipped")
+				}
+				return
+			}
+			run(ps, seqs[i], pi*1000000+i, false)
+		})
+	}
+	c.Bound("sequences", total)
 	sort.SliceStable(r.fails, func(i, j int) bool { return r.fails[i].order < r.fails[j].order })
 	for _, f := range r.fails {
 		c.Fail(f.key, f.what, f.rep)
